@@ -64,20 +64,58 @@ def env():
     return _ENV
 
 
+def _bookkeeping_slots():
+    """(setter, key, value-at-rest) for every int / bool the copy-protection module keeps at module level, on its
+    classes, on its singletons or in its module-level dicts - found structurally, so that moving the bookkeeping
+    somewhere else does not blind this reset."""
+    from spec_classes.utils import mutation
+
+    slots, seen = [], set()
+
+    def visit(obj, d):
+        if id(obj) in seen or d > 3:
+            return
+        seen.add(id(obj))
+        if isinstance(obj, dict):
+            items, setter = list(obj.items()), obj.__setitem__
+        elif isinstance(obj, type):
+            items, setter = list(vars(obj).items()), (lambda k, v, o=obj: setattr(o, k, v))
+        elif isinstance(getattr(obj, "__dict__", None), dict):
+            items, setter = list(obj.__dict__.items()), (lambda k, v, o=obj: o.__dict__.__setitem__(k, v))
+        else:
+            return
+        for k, v in items:
+            if isinstance(k, str) and k.startswith("__") and k.endswith("__") and k != "__instance__":
+                continue
+            if isinstance(v, (bool, int)):
+                slots.append((setter, k, v))
+            elif isinstance(v, type):
+                if getattr(v, "__module__", None) == mutation.__name__:
+                    visit(v, d + 1)
+            elif isinstance(v, dict) or getattr(type(v), "__module__", None) == mutation.__name__:
+                visit(v, d + 1)
+
+    visit(vars(mutation), 0)
+    return slots
+
+
+_SLOTS = []
+
+
 def reset_global_state():
     """Start every attempt from the pristine table (a leak found in one attempt must not hide or cause another)."""
     for k in list(copyreg.dispatch_table):
         if k not in PRISTINE:
             del copyreg.dispatch_table[k]
-    try:  # best effort: bring the copy-protection bookkeeping back to rest after an aborted attempt
-        from spec_classes.utils import mutation
-
-        inst = getattr(mutation._modules_copyable, "__instance__", None)
-        if inst is not None:
-            inst.refcount = 0
-            inst.patched_table = False
-    except Exception:
-        pass
+    # best effort: bring the copy-protection bookkeeping (counters / flags, wherever the library keeps them) back to
+    # the values it had at rest when this process first looked
+    if not _SLOTS:
+        _SLOTS.append(_bookkeeping_slots())
+    for setter, k, v in _SLOTS[0]:
+        try:
+            setter(k, v)
+        except Exception:
+            pass
 
 
 def table_diff():
@@ -90,7 +128,15 @@ def table_diff():
 # ---------------------------------------------------------------------------
 # sequential histories. ops are JSON lists.
 
-OPS = ["new", "new_nested", "with_item", "with_items", "with_mods", "update_item", "deepcopy", "deepcopy_nested", "reset", "reset_items", "with_bad", "with_table", "transform_item"]
+OPS = ["new", "new_nested", "with_item", "with_items", "with_mods", "update_item", "deepcopy", "deepcopy_nested", "reset", "reset_items", "with_bad", "with_table", "transform_item",
+       "with_uncopyable", "new_uncopyable"]
+
+
+class Uncopyable:
+    """A user object whose own copy hook fails: the natural way for a copy to be abandoned half-way."""
+
+    def __deepcopy__(self, memo):
+        raise ValueError("this object cannot be copied")
 
 
 def make_in(i):
@@ -129,6 +175,10 @@ def apply(cur, op):
         return cur.reset_items()
     if name == "with_bad":
         return cur.with_n("not an int")
+    if name == "with_uncopyable":
+        return cur.with_mods([math, [sys, Uncopyable()]])
+    if name == "new_uncopyable":
+        return Out(mods=[sys, {"k": Uncopyable()}], item=make_in(op[1]))
     if name == "with_table":
         return cur.with_table({"x": make_in(op[1]), "y": make_in(op[1] + 1)})
     raise AssertionError(op)
@@ -274,10 +324,8 @@ def run_conc(ctx, case):
     sched = Scheduler(case["schedule"], files=NARROW if case.get("narrow") else FILES, timeout=30.0)
     sched.critical_functions = CRITICAL
     PATCH.current = sched
-    inst = getattr(mutation._modules_copyable, "__instance__", None)
-    old_lock = getattr(inst, "lock", None)
-    if inst is not None:
-        inst.lock = sched.make_rlock()
+    # whatever locks the library holds at module / class / singleton level become scheduler-aware for this run
+    restore = PATCH.swap_live_locks(sched)
     try:
         fns = thread_fns(case["shape"], case["threads"])
         try:
@@ -286,8 +334,7 @@ def run_conc(ctx, case):
             raise HarnessError(f"C20 scheduler: {e}")
     finally:
         PATCH.current = None
-        if inst is not None and old_lock is not None:
-            inst.lock = old_lock
+        restore()
     for t in threads:
         if t.error is not None:
             kind = "deadlock" if type(t.error).__name__ == "Deadlock" else type(t.error).__name__
@@ -314,16 +361,12 @@ def count_steps(shape, threads, narrow=False):
     sched = Scheduler([], files=NARROW if narrow else FILES, timeout=30.0)
     sched.record = True
     PATCH.current = sched
-    inst = getattr(mutation._modules_copyable, "__instance__", None)
-    old_lock = getattr(inst, "lock", None)
-    if inst is not None:
-        inst.lock = sched.make_rlock()
+    restore = PATCH.swap_live_locks(sched)
     try:
         sched.run(thread_fns(shape, threads))
     finally:
         PATCH.current = None
-        if inst is not None and old_lock is not None:
-            inst.lock = old_lock
+        restore()
     # steps executed by thread 0 before it finishes = positions where a first preemption can happen
     first = [i + 1 for i, (t, _) in enumerate(sched.trace_positions) if t == 0]
     return sched.step, first
